@@ -218,6 +218,9 @@ def _decorate(draw, prog, feats):
             n['named'] = False
         if n['mode'] == 'thread' and draw(st.booleans()):
             n['thread_tag'] = True
+        if n['mode'] == 'process' and draw(st.integers(0, 2)) == 0:
+            # the process tag next to the (otherwise unused) thread tag, in either order: still the process pool
+            n['both_tags'] = draw(st.sampled_from(['tp', 'pt']))
     if 'generic' in feats and draw(st.integers(0, 3)) == 0:
         # a family of nodes built from ONE shared generic base (reusable node with different wirings)
         by_mode = {}
@@ -377,17 +380,21 @@ def variants(draw, program, feats=ALL_FEATS, x=None, p_fail=9):
             labels = []
             for m in sw:
                 labels += [l for l, _ in m[3]]
-            if 'unknown_label' in feats and draw(st.integers(0, 14)) == 0:
-                beh['label'] = 'NOPE'
+            if 'unknown_label' in feats and draw(st.integers(0, 11)) == 0:
+                # a label no case declares - also the values a decider returns by accident (None, 0, '', False)
+                beh['label'] = draw(st.sampled_from(['NOPE', None, None, 0, '', False, 'l0']))
             else:
                 beh['label'] = draw(st.sampled_from(sorted(set(labels))))
         if nid in rec_max:
             mx = rec_max[nid]
             beh['rec_n'] = draw(st.sampled_from([0, 1, 1, 2, mx, mx, mx + 1]))
-            if beh['rec_n'] and draw(st.integers(0, 5)) == 0:
+            if beh['rec_n'] and draw(st.integers(0, 4)) == 0:
                 # next_iteration(0): falsy additional_data must reach the start node like any other value (the start
-                # then looks like iteration 0 again, so the destination keeps asking until iterations are exhausted)
-                beh['rec_data'] = 'zero'
+                # then looks like iteration 0 again, so the destination keeps asking until iterations are exhausted);
+                # next_iteration(None) after next_iteration(1): the start node must NOT see the earlier data again
+                beh['rec_data'] = draw(st.sampled_from(['zero', 'none_after_first']))
+                if beh['rec_data'] == 'none_after_first':
+                    beh['rec_n'] = max(beh['rec_n'], 2)
         if 'fail' in feats and draw(st.integers(0, 99)) < p_fail:
             k = _weighted(draw, [(0, 3), (1, 3), (2, 2), (3, 1)])
             outs = [draw(st.sampled_from(outcomes_pool + ['ok'])) for _ in range(k)]
